@@ -85,6 +85,11 @@ Clauses(r) ==
   C11_AbscissaCorrected |->
       \A i \in 1..np : r.passes[i].x_exp \in {1, 99},
   C11_StoredInitUnchanged |-> r.stored_cp_exp \in {0, 99},
+  \* with k # 1 the plateau search still scans MEASURED depths
+  C11_ScanInMeasuredUnits |->
+      (r.mode = "edelta" /\ r.success /\ r.k_not_one)
+        => /\ r.scan.first_is_deepest /\ r.scan.last_is_5pct
+           /\ r.scan.passes_follow_grid /\ r.scan.dopt_inside,
   \* ------------------------------------------------------------- C04
   C04_FitIsModel     |-> r.success => r.rel.fit_is_model,
   C04_NaNOutside     |-> r.success => r.rel.nan_outside_segment,
